@@ -61,6 +61,7 @@ pub fn value_of(j: &J) -> Value {
       }
       Value::Number(crate::codec::number_from_parts(j["s"].as_i64().unwrap_or(0) == 1, &digits, j["e"].as_i64().unwrap_or(0) - sc))
     }
+    "null" if j.get("why").is_some() => Value::Null(Some(j["why"].as_str().unwrap_or("").to_string())),
     _ => dec_value(j),
   }
 }
